@@ -126,8 +126,16 @@ func Run(bodies []func(), chooser Chooser, syncPoints bool) (*Sched, []ThreadRes
 	p := Point{Thread: -1, Kind: "start", Enabled: en, Free: true}
 	c := s.choose(&p)
 	s.running = en[c]
+	var stopWD chan struct{}
+	if OnRealDeadlock != nil {
+		stopWD = make(chan struct{})
+		go s.watchdog(stopWD)
+	}
 	s.threads[s.running].h.signal()
 	s.mainH.wait()
+	if stopWD != nil {
+		close(stopWD)
+	}
 	active = nil
 	if !s.Deadlock && s.Aborted == "" {
 		s.join.Wait()
